@@ -24,16 +24,30 @@ def main() -> int:
         from vf.mon import clock
 
         clock.install()
+        from vf.mon import reach
+
+        reach.install(env.REPO)
         env.import_han()
         env.rotate_environment(ctx, job["shard"].get("index", 0))
         mod = importlib.import_module(f"vf.props.{prop.lower()}")
-        mod.run(job["shard"], ctx)
+        try:
+            mod.run(job["shard"], ctx)
+        finally:
+            from vf.mon import containers
+
+            containers.report(ctx)
     except env.Inconclusive as ex:
         ctx.note_inconclusive(str(ex))
     except BaseException:  # harness failure is never a verdict on the repository
         ctx.note_inconclusive("harness error in worker: " + traceback.format_exc()[-1500:])
     res = ctx.result(result_path + ".digests")
     res["wall_s"] = time.time() - t0
+    try:
+        from vf.mon import reach
+
+        res["reached"] = reach.snapshot()
+    except Exception:
+        res["reached"] = {}
     with open(result_path, "w") as fh:
         json.dump(res, fh)
     return 0
